@@ -119,7 +119,14 @@ def run(ctx) -> None:
 
     RL = returned_name(rfi.node)  # the list read_events returns
     simf = nested_function(rfi.node, lambda f: any(isinstance(n, ast.Call) and dotted(n.func) == "os.walk" for n in ast.walk(f)))
-    SL = returned_name(simf) if simf is not None else None  # the list of simulated records
+    simnode = simf
+    if simnode is None:
+        # ... or a method of the reader that read_events calls on self and that walks a tree and returns a list
+        for hf in P.self_closure("Inotify", "read_events")[1:]:
+            if any(isinstance(n, ast.Call) and dotted(n.func) == "os.walk" for n in ast.walk(hf.node)) and returned_name(hf.node) is not None:
+                simnode = hf.node
+                break
+    SL = returned_name(simnode) if simnode is not None else None  # the list of simulated records
     if RL is None or SL is None:
         raise AnalysisError("read_events: returned list / simulated-events list not identified")
     found_sim = False
@@ -142,61 +149,92 @@ def run(ctx) -> None:
         ctx.check(td, RO, "_recursive_simulate walks top-down", "bottom-up walk: simulated creates of children precede their parents", rfi.loc)
         kinds = {"dirs": False, "files": False}
         why: list[str] = []
+
+        def listing_of(text: str):
+            """(which, walk-root text) if `text` is one of the walk's listings, or an eager copy of it in the same order"""
+            mcopy = re.fullmatch(r"(?:list|tuple)\((.+)\)|(.+)\[:\]|(.+)\.copy\(\)", text)
+            lt = next(g for g in mcopy.groups() if g) if mcopy else text
+            which = "dirs" if lt.endswith("[1]") else "files" if lt.endswith("[2]") else None
+            return (which, lt[: -len("[1]")] + "[0]") if which else (None, None)
+
+        # one production per (iteration of the walk, listed entry): the record(s) made for the entry, the conditions it was made
+        # under, whether a failure was absorbed for it.  The record may be appended in a loop over the listing, or be the element of
+        # a comprehension over the listing (assigned, returned by a helper, or handed to extend / +=).
+        prods = {"dirs": [], "files": []}
         for b in W.extra["paths"]:
+            bc = b.conds()
             for x in b.evs:
-                if x.kind != "loop":
-                    continue
-                # the listing as it is, or an eager copy of it in the same order (list(dirs), tuple(dirs), dirs[:], dirs.copy())
-                lt = x.text
-                mcopy = re.fullmatch(r"(?:list|tuple)\((.+)\)|(.+)\[:\]|(.+)\.copy\(\)", lt)
-                if mcopy:
-                    lt = next(g for g in mcopy.groups() if g)
-                which = "dirs" if lt.endswith("[1]") else "files" if lt.endswith("[2]") else None
-                if which is None:
-                    continue
-                bodies = [bb for bb in x.extra["paths"] if bb.outcome[0] not in ("raise",)]
-                good = bool(bodies)
-                for bb in bodies:
-                    apps = [y for y in bb.evs if y.kind == "call" and y.extra.get("func") == f"{SL}.append"]
-                    absorbed = any(y.kind == "caught" for y in bb.evs) or bb.outcome == ("continue",)
-                    if len(apps) != 1 and not absorbed:
+                if x.kind == "loop":
+                    which, wroot = listing_of(x.text)
+                    if which is None:
+                        continue
+                    for bb in x.extra["paths"]:
+                        if bb.outcome[0] == "raise":
+                            continue
+                        recs = []
+                        for y in bb.evs:
+                            if y.kind == "call" and y.extra.get("func", "").endswith(".append"):
+                                t_ = y.extra.get("term")
+                                if isinstance(t_, ast.Call) and t_.args:
+                                    recs.append(t_.args[0])
+                        watched = [y.text for y in bb.evs if y.kind == "call" and y.extra.get("func") == "inotify_add_watch"]
+                        prods[which].append(dict(watched=watched, elem=f"$elem({x.text})", wroot=wroot, recs=recs, conds={**bc, **bb.conds()}, absorbed=any(y.kind == "caught" for y in bb.evs) or bb.outcome == ("continue",), skipped=(not recs and bb.outcome == ("continue",)), own=bb.conds()))
+                else:
+                    t_ = x.extra.get("term") if x.kind in ("assign", "call", "return") else None
+                    for comp in [n for n in ast.walk(t_) if isinstance(n, (ast.ListComp, ast.GeneratorExp))] if isinstance(t_, ast.AST) else []:
+                        if len(comp.generators) != 1 or not isinstance(comp.generators[0].target, ast.Name):
+                            continue
+                        itxt = ast.unparse(comp.generators[0].iter)
+                        which, wroot = listing_of(itxt)
+                        if which is None or any(d["elem"] == f"$elem({itxt})" and d.get("comp") for d in prods[which]):
+                            continue
+                        from ..pse import rewrite as _rw
+
+                        tgt = comp.generators[0].target.id
+                        rec = _rw(comp.elt, lambda n: ast.Call(ast.Name("$elem", ast.Load()), [comp.generators[0].iter], []) if isinstance(n, ast.Name) and n.id == tgt else None)
+                        prods[which].append(dict(elem=f"$elem({itxt})", wroot=wroot, recs=[rec], conds=dict(bc), absorbed=False, skipped=False, own={}, comp=True, filtered=bool(comp.generators[0].ifs)))
+        for which in ("dirs", "files"):
+            good = bool(prods[which])
+            for d in prods[which]:
+                if d.get("filtered"):
+                    good = False
+                    why.append(f"{which}: entries are filtered before a record is made for them")
+                if len(d["recs"]) != 1 and not d["absorbed"]:
+                    good = False
+                for rec in d["recs"]:
+                    a = ast.unparse(rec)
+                    if "IN_CREATE" not in a or (("IN_ISDIR" in a) != (which == "dirs")):
                         good = False
-                    for y in apps:
-                        a = (y.extra.get("args") or [""])[0]
-                        if "IN_CREATE" not in a or (("IN_ISDIR" in a) != (which == "dirs")):
+                    # the simulated record names the walked entry: name = the loop element, path = join(walk root, element),
+                    # a watch was added for the entry (directories) / descriptor = the parent's watch looked up by dirname(path) (files)
+                    if isinstance(rec, ast.Call) and len(rec.args) >= 5:
+                        elem, wroot = d["elem"], d["wroot"]
+                        path = f"os.path.join({wroot}, {elem})"
+                        a0, a3, a4 = ast.unparse(rec.args[0]), ast.unparse(rec.args[3]), ast.unparse(rec.args[4])
+                        if a3 != elem or a4 != path:
                             good = False
-                        # the simulated record names the walked entry: name = the loop element, path = join(walk root, element),
-                        # descriptor = the watch just added (directories) / the parent's watch looked up by dirname(path) (files)
-                        term = y.extra.get("term")
-                        rec = term.args[0] if isinstance(term, ast.Call) and term.args else None
-                        if isinstance(rec, ast.Call) and len(rec.args) >= 5:
-                            elem = f"$elem({x.text})"
-                            wroot = lt[: -len("[1]")] + "[0]"
-                            path = f"os.path.join({wroot}, {elem})"
-                            a0, a3, a4 = ast.unparse(rec.args[0]), ast.unparse(rec.args[3]), ast.unparse(rec.args[4])
-                            if a3 != elem or a4 != path:
+                            why.append(f"{which}: record carries name `{a3[-40:]}` / path `{a4[-60:]}` instead of the walked entry and join(walk root, entry)")
+                        # (which descriptor the simulated record of a directory carries is not observable: nothing reads it; what
+                        # matters is that the directory got its watch before its record was made)
+                        if which == "dirs" and not any("inotify_add_watch(" in t and path in t for t in [a0, *d.get("watched", [])]):
+                            good = False
+                            why.append("dirs: no watch is added for the walked directory before its record is made")
+                        if which == "files":
+                            # the parent of join(walk root, name) is the walk root (os.walk hands out plain names): either spelling
+                            lookups = (f"self._wd_for_path.get(os.path.dirname({path}))", f"self._wd_for_path.get({wroot})", f"self._wd_for_path[os.path.dirname({path})]", f"self._wd_for_path[{wroot}]")
+                            if a0 not in lookups:
                                 good = False
-                                why.append(f"{which}: record carries name `{a3[-40:]}` / path `{a4[-60:]}` instead of the walked entry and join(walk root, entry)")
-                            if which == "dirs" and not (a0.startswith("inotify_add_watch(") and path in a0):
+                                why.append("files: the record's descriptor is not the parent's watch looked up under dirname(path)")
+                            elif a0 in lookups[:2] and d["conds"].get(f"{a0} is None") is not False:
                                 good = False
-                                why.append("dirs: the record's descriptor is not the watch just added for that directory")
-                            if which == "files":
-                                # the parent of join(walk root, name) is the walk root (os.walk hands out plain names): either spelling
-                                lookups = (f"self._wd_for_path.get(os.path.dirname({path}))", f"self._wd_for_path.get({wroot})", f"self._wd_for_path[os.path.dirname({path})]", f"self._wd_for_path[{wroot}]")
-                                if a0 not in lookups:
-                                    good = False
-                                    why.append("files: the record's descriptor is not the parent's watch looked up under dirname(path)")
-                                elif a0 in lookups[:2] and {**b.conds(), **bb.conds()}.get(f"{a0} is None") is not False:
-                                    good = False
-                                    why.append("files: a record is built although the parent's watch was not found (descriptor None)")
-                        else:
-                            good = False
-                    if not apps and bb.outcome == ("continue",) and which == "files":
-                        c_ = bb.conds()
-                        if not any(k.startswith("self._wd_for_path.get(os.path.dirname(") and k.endswith(" is None") and v is True for k, v in c_.items()):
-                            good = False
-                            why.append("files: an entry is skipped although its parent's watch exists")
-                kinds[which] = kinds[which] or good
+                                why.append("files: a record is built although the parent's watch was not found (descriptor None)")
+                    else:
+                        good = False
+                if d["skipped"] and which == "files":
+                    if not any(k.startswith("self._wd_for_path.get(") and k.endswith(" is None") and v is True for k, v in d["own"].items()):
+                        good = False
+                        why.append("files: an entry is skipped although its parent's watch exists")
+            kinds[which] = good
         ctx.check(kinds["dirs"] and kinds["files"], RT, "new directory: one simulated create per walked directory and file", f"simulated creates missing, mis-flavoured or mis-addressed (dirs ok={kinds['dirs']}, files ok={kinds['files']}): " + "; ".join(sorted(set(why)))[:400], rfi.loc)
         break
     if not found_sim:
@@ -216,8 +254,8 @@ def run(ctx) -> None:
     if "[i:j]=" in ops:
         ctx.unresolved.append(f"{RL} is also filled by slice assignment (positional insertion): whether kernel order is kept depends on index arithmetic, not decided")
     stage("reader: returned event list", set(ops) <= {"append", "extend", "[i:j]="} and bool(set(ops) & {"append", "extend"}), f"operations on {RL}: {ops}", rfi.loc, ops)
-    ops = list_ops(rfi.node, SL)
-    stage("reader: simulated events list", set(ops) <= {"append", "extend"}, f"operations on the simulated list: {ops}", rfi.loc, ops)
+    ops = list_ops(simnode, SL)
+    stage("reader: simulated events list", set(ops) <= {"append", "extend", "augassign"}, f"operations on the simulated list: {ops}", rfi.loc, ops)  # x += more extends x in place, at its end
     gf = P.find_method("InotifyBuffer", "_group_events")
     GL = returned_name(gf.node)
     if GL is None:
